@@ -678,11 +678,11 @@ def violation(eng, res, cfg, gene, cn_list, xs, totals, hyps, label, key, mdl=No
         friendly.append(z3.Or(x <= 0, z3.And(x >= 2, x * symx.q(cn + 0.5) >= symx.q(0.5 * t))))
     for b in bounds:
         extra = list(hyps) + ([] if b is None else [obj <= symx.q(b)])
-        st, mm = eng.satisfiable(extra + intc + friendly, timeout_ms=30000)
+        st, mm = eng.satisfiable(extra + intc + friendly, timeout_ms=90000)
         if st != "sat":
-            st, mm = eng.satisfiable(extra + intc, timeout_ms=30000)
+            st, mm = eng.satisfiable(extra + intc, timeout_ms=90000)
         if st != "sat":
-            st, mm = eng.satisfiable(extra, timeout_ms=30000)
+            st, mm = eng.satisfiable(extra, timeout_ms=90000)
         if st != "sat":
             continue
         tried += 1
